@@ -3,7 +3,7 @@ SlicedMemoryIO, MemoryIO and the _if_not_closed/_if_not_freed decorators)."""
 import z3
 from pyvc.spec import contract, lemma
 from pyvc.values import TInt, TBool, TTuple, TOpt, TSeq, TRec, TConst, SeqV, ListV, ObjV
-from pyvc.speclib import implies, ite, forall_range, select, seq_len, is_none, unopt, warnings_of, iff
+from pyvc.speclib import implies, ite, forall_range, select, seq_len, is_none, unopt, warnings_of, warnings_at, iff
 
 BYTES = TSeq(TInt(0, 255), "bytes")
 MEM = TSeq(TInt(0, 255), "bytes")          # the chip's memory, indexed by address (length irrelevant)
@@ -143,15 +143,19 @@ def _run(self, call, fail_transfers=False):
     import types
     v, par = _mk_view(self)
     par.fail_transfers = fail_transfers
-    with warnings.catch_warnings(record=True) as w:
+    w = []
+    with warnings.catch_warnings():
         warnings.simplefilter("always")
+        # (every warning is noted together with the number of transfers made before it)
+        warnings.showwarning = lambda message, category, *a, **k: w.append((category.__name__, len(par.trace)))
         try:
             res = call(v)
             raised = None
         except Exception as e:
             res, raised = None, type(e).__name__
     import pyvc.speclib as sl
-    sl._warnings[:] = [x.category.__name__ for x in w]
+    sl._warnings[:] = [x[0] for x in w]
+    sl._warnings_at[:] = [x[1] for x in w]
     post = types.SimpleNamespace(closed=v.closed, _start_address=v._start_address, _end_address=v._end_address,
                                  _offset=v._offset, _parent=types.SimpleNamespace(_freed=par._freed, mem=bytes(par.mem)))
     if isinstance(res, type(v)):
@@ -199,6 +203,9 @@ class Read:
         cut = n_bytes >= 0 and self._offset + n_bytes > length(self)
         return implies(cut, warnings_of() == ("TruncationWarning",)) and implies(not cut, len(warnings_of()) == 0)
 
+    def ensures_truncation_is_reported_before_anything_is_transferred(self, n_bytes):
+        return all(n == 0 for n in warnings_at())
+
     def ensures_frame(self, self_post):
         return frame_view(self, self_post)
 
@@ -241,6 +248,11 @@ class Write:
         # ends exactly on the last byte, and an empty one - is not reported as truncated
         cut = self._offset + seq_len(bytes) > length(self)
         return implies(cut, warnings_of() == ("TruncationWarning",)) and implies(not cut, len(warnings_of()) == 0)
+
+    def ensures_truncation_is_reported_before_anything_is_transferred(self, bytes):
+        # a caller who turns the warning into an error (as the docstring suggests) must find the view as it was: nothing written,
+        # the position unmoved - so the warning has to come before the transfer
+        return all(n == 0 for n in warnings_at())
 
     def ensures_changes_no_other_byte(self, bytes, self_post):
         want = transferable(self, seq_len(bytes))
